@@ -179,8 +179,25 @@ def _split_first_payload(base, idx):
     return T("call", ("Index::index", ("[%s]" % elem, "RangeFrom<usize>")), (x, rng), *c.a[2:])
 
 
+def _try_payload(base, idx):
+    """`(Try::branch(x) as Continue).0` is the payload of x's success variant: `(x as Some).0` / `(x as Ok).0`."""
+    if not (idx == 0 and base.op == "downcast" and base.a[1] == "Continue"):
+        return None
+    c = base.a[0]
+    if not (c.op == "call" and isinstance(c.a[0], tuple) and c.a[0][0] == "Try::branch" and len(c.a[1]) == 1 and c.a[0][1]):
+        return None
+    ty = str(c.a[0][1][0])
+    var = "Some" if ty.startswith("Option<") else ("Ok" if ty.startswith("Result<") else None)
+    if var is None:
+        return None
+    return mk_field(mk_downcast(c.a[1][0], var), 0, "0")
+
+
 def mk_field(base, idx, name):
     sp = _split_first_payload(base, idx)
+    if sp is not None:
+        return sp
+    sp = _try_payload(base, idx)
     if sp is not None:
         return sp
     if base.op == "agg":
@@ -249,6 +266,8 @@ def subst(t, mapping, memo=None):
                 r = mk_field(base, names.index(name), name)
         if r is None and name in ("0", "1"):
             r = _split_first_payload(base, int(name))
+        if r is None and name == "0":
+            r = _try_payload(base, 0)
         if r is None:
             r = T("field", base, name)
     elif op == "downcast":
